@@ -633,7 +633,16 @@ impl ImageXObject {
                 }).unwrap_or(filters.len());
                 
                 let (normal_filters, image_filters) = filters.split_at(end);
-                let data = resolve.get_data_or_decode(id, file_range.clone(), normal_filters)?;
+                let data = if image_filters.is_empty() {
+                    resolve.get_data_or_decode(id, file_range.clone(), filters)?
+                } else {
+                    // the stream cache is keyed by the object id alone, so only fully decoded data may go through it
+                    let mut data = resolve.stream_data(id, file_range.clone())?;
+                    for filter in normal_filters {
+                        data = t!(decode(&data, filter), filter).into();
+                    }
+                    data
+                };
         
                 match image_filters {
                     [] => Ok((data, None)),
